@@ -29,7 +29,7 @@ def lr_fn(cfg):
   sch = cfg.get("lr_schedule")
   if sch:
     _, base, every = sch
-    return lambda t: jnp.asarray(base, jnp.float32) * (0.5 ** (t // every)).astype(jnp.float32)
+    return lambda t: jnp.asarray(base, jnp.float32) * jnp.power(jnp.float32(0.5), (jnp.asarray(t) // every).astype(jnp.float32))
   return cfg.get("learning_rate", 0.1)
 
 
